@@ -118,6 +118,9 @@ type Input struct {
 	// Clauses(clause.OrderBy{Expression}) | reorder (an earlier Order(v) replaced by a Reorder column) |
 	// column Order(clause.OrderByColumn{...})
 	OrdVia string `json:"ord_via,omitempty"`
+	// SelCols: the Select list of the field-by-field reads, (name the driver reports, source column);
+	// empty = no Select
+	SelCols [][2]string `json:"sel_cols,omitempty"`
 }
 
 type Obs struct {
@@ -178,6 +181,10 @@ type Obs struct {
 	// Find through gorm's own LIMIT / OFFSET rendering (GRun false: statement not valid SQLite)
 	GFind []Row `json:"g_find"`
 	GRun  bool  `json:"g_run"`
+	// the chain under SelCols read into []Item (the five fields in schema order, nil = nil pointer) and
+	// into []map (every entry, nil = nil)
+	SelRecs    [][]*int64          `json:"sel_recs"`
+	SelMapRecs []map[string]*int64 `json:"sel_map_recs"`
 }
 
 func chain(db *gorm.DB, in Input) *gorm.DB {
@@ -636,6 +643,7 @@ func run(db *gorm.DB, in Input) (o Obs) {
 	moreShapes(db, in, &o)
 	genericLimit(in, &o)
 	selectedColumns(db, in, &o)
+	fieldByField(db, in, &o)
 	compositeKeys(db, in, &o)
 	inlineAndSiblings(db, in, &o)
 	return o
@@ -852,6 +860,108 @@ func selectedColumns(db *gorm.DB, in Input, o *Obs) {
 	o.SelCount, o.SelFind, o.SelMaps = cnt, int64(len(items)), int64(len(maps))
 }
 
+// selMenu: the Select lists of the field-by-field reads: a reordered subset, the nullable column, a
+// column delivered under the name of another (the later column wins), a duplicate name, the
+// keyword-named column, a name no field has
+var selMenu = [][][2]string{
+	nil,
+	{{"v", "v"}, {"id", "id"}},
+	{{"id", "id"}, {"n", "n"}},
+	{{"n", "n"}, {"id", "id"}, {"v", "key_copy"}},
+	{{"id", "id"}, {"v", "v"}, {"v", "id"}},
+	{{"order", "order"}, {"key_copy", "key_copy"}},
+	{{"zz", "v"}, {"id", "id"}},
+	{{"key_copy", "v"}, {"n", "id"}, {"key_copy", "key_copy"}},
+}
+
+func genSel(r *lib.Rng, ord string) [][2]string {
+	for {
+		s := lib.Pick(r, selMenu)
+		ok := true
+		for _, c := range s {
+			// (ORDER BY v would mean the output column of that name)
+			if ord == "v_asc" && c[0] != c[1] {
+				ok = false
+			}
+		}
+		if ok {
+			return s
+		}
+	}
+}
+
+func fieldByField(db *gorm.DB, in Input, o *Obs) {
+	o.SelRecs, o.SelMapRecs = [][]*int64{}, []map[string]*int64{}
+	sel := func(tx *gorm.DB) *gorm.DB {
+		if len(in.SelCols) == 0 {
+			return tx
+		}
+		var args []interface{}
+		for _, c := range in.SelCols {
+			if c[0] == c[1] {
+				args = append(args, c[1])
+			} else {
+				args = append(args, c[1]+" AS "+c[0])
+			}
+		}
+		return tx.Select(args[0], args[1:]...)
+	}
+	var items []Item
+	if err := sel(chain(db, in)).Find(&items).Error; err != nil {
+		o.Errs = append(o.Errs, "fields_find: "+err.Error())
+	}
+	p := func(v int64) *int64 { return &v }
+	for _, it := range items {
+		o.SelRecs = append(o.SelRecs, []*int64{p(it.ID), p(it.V), it.N, p(it.KeyCopy), p(it.Rank)})
+	}
+	var maps []map[string]interface{}
+	if err := sel(chain(db, in).Model(&Item{})).Find(&maps).Error; err != nil {
+		o.Errs = append(o.Errs, "fields_maps: "+err.Error())
+	}
+	for _, m := range maps {
+		rec := map[string]*int64{}
+		for k, v := range m {
+			v = deref(v)
+			if pv, ok := v.(*int64); v == nil || (ok && pv == nil) {
+				rec[k] = nil
+			} else {
+				rec[k] = p(asInt(v))
+			}
+		}
+		o.SelMapRecs = append(o.SelMapRecs, rec)
+	}
+}
+
+func gVal(v *int64) string {
+	if v == nil {
+		return "None"
+	}
+	return "(Some " + lib.Z(*v) + ")"
+}
+
+var itemCols = []string{"id", "v", "n", "key_copy", "order"}
+
+func gRec(rec []*int64) string {
+	parts := []string{}
+	for i, v := range rec {
+		parts = append(parts, lib.Pair(lib.Str(itemCols[i]), gVal(v)))
+	}
+	return "[" + strings.Join(parts, "; ") + "]"
+}
+
+func gMapRec(m map[string]*int64) string {
+	keys := []string{}
+	for k := range m {
+		keys = append(keys, k)
+	}
+	sort.Strings(keys)
+	parts := []string{}
+	for _, k := range keys {
+		parts = append(parts, lib.Pair(lib.Str(k), gVal(m[k])))
+	}
+	return "[" + strings.Join(parts, "; ") + "]"
+}
+
 // compositeKeys: First / Take / Last into a destination that carries a composite key return that
 // row, and ErrRecordNotFound exactly when no row has the key.
 func compositeKeys(db *gorm.DB, in Input, o *Obs) {
@@ -961,7 +1071,9 @@ func term(in Input, o Obs) string {
 		}),
 		lib.Z(o.InlKey), lib.ListOf(o.Inl, gORow), gRows(o.InlFind),
 		gRows(o.CPage), gRows(o.Page), lib.Z(o.CPageN), gRows(o.SibAsc), gRows(o.SibDesc),
-		lib.Bool(o.GRun), gRows(o.GFind))
+		lib.Bool(o.GRun), gRows(o.GFind),
+		lib.ListOf(in.SelCols, func(c [2]string) string { return lib.Pair(lib.Str(c[0]), lib.Str(c[1])) }),
+		lib.ListOf(o.SelRecs, gRec), lib.ListOf(o.SelMapRecs, gMapRec))
 }
 
 // ---- generation ----
@@ -1076,6 +1188,14 @@ func main() {
 		out.Count("batch_size", fmt.Sprint(in.BS))
 		out.Count("batches_delivered", fmt.Sprint(len(o.Batches)))
 		out.Count("errors", fmt.Sprint(len(o.Errs)))
+		sl := "none"
+		if len(in.SelCols) > 0 {
+			sl = ""
+			for _, c := range in.SelCols {
+				sl += c[1] + ">" + c[0] + " "
+			}
+		}
+		out.Count("select_list_of_field_reads", sl)
 	}
 
 	if a.Replay != "" {
@@ -1174,6 +1294,7 @@ func main() {
 				in.PtrBatch = r.Chance(1, 3)
 			}
 		}
+		in.SelCols = genSel(r, in.Ord)
 		kind := "main"
 		if edge {
 			kind = "edge"
